@@ -52,6 +52,15 @@ func scenarioC02(r *Run) {
 	if maxPayload > 192*1024 {
 		maxPayload = 192 * 1024
 	}
+	crowd := false
+	if !CarrierIsDNS(carrier) && !CarrierIsKCP(carrier) && c.Chance(1, 10, "crowd") {
+		// "any number of logical connections": a crowd of 18-40 with small payloads, many of which close
+		// in mid-transfer while the rest carry on
+		k = 18 + c.Pick(23, "crowd-size")
+		maxPayload = 4096
+		crowd = true
+		r.Count("runs_with_a_crowd_of_connections")
+	}
 	r.Net.DefaultCap = c.OneOf("sockbuf", 65536, 0, 4096, 262144)
 	pol := &NetPolicy{ChunkBias: c.Pick(3, "chunk-bias")}
 	if CarrierIsKCP(carrier) && c.Chance(1, 3, "benign-faults") {
@@ -77,6 +86,8 @@ func scenarioC02(r *Run) {
 		switch {
 		case i == 0 && m < 4, m == 4:
 			lc.Mode = "idle" // exchanges its one identifying byte, then stays open and silent
+		case crowd && m >= 5:
+			lc.Mode = []string{"closing-app", "closing-target"}[c.Pick(2, "closing-side")]
 		case m == 5:
 			lc.Mode = "paused-app"
 		case m == 6:
